@@ -317,10 +317,29 @@ def run_property(prop, tier, seed):
         targets += [(r.get("unit"), r) for r in results if r.get("unit") and r.get("unit") not in und_names]
     else:
         targets += [(r.get("unit"), r) for r in results if r.get("unit") in changed_units]
+    FB = getattr(reg, "FALLBACK", {})
+
+    def _what(routine, what):
+        # "see <unit>": the description lives with the unit the routine was written for
+        if what.startswith("see "):
+            for (rt, _rp, w) in FB.get(what.split()[1], []):
+                if rt == routine and not w.startswith("see "):
+                    return w
+        return what
     for (uname, r) in targets:
-        for (routine, rprops, what) in getattr(reg, "FALLBACK", {}).get(uname, []):
+        cands = list(FB.get(uname, []))
+        if uname in und_names:
+            # a unit that could not be decided by proof: every routine whose oracle is about THIS property runs, whichever
+            # unit it was written for (the routines run the whole crate; an undecided unit leaves the property open)
+            have = set(rt for (rt, _rp, _w) in cands)
+            for (ou, lst) in FB.items():
+                for (rt, rp, w) in lst:
+                    if rt not in have and prop in rp:
+                        cands.append((rt, rp, w)); have.add(rt)
+        for (routine, rprops, what) in cands:
             if prop not in rprops or routine in ran_routines:
                 continue
+            what = _what(routine, what)
             ran_routines.add(routine)
             from . import witness
             d = witness.run_routine(routine.split()[0], routine.split()[1:], timeout=900)
